@@ -87,7 +87,8 @@ class Runner:
                 g = self.graphs[tok[1:]]
                 self.n += 1
                 path = os.path.join(self.wd, "g%d.kthlist" % self.n)
-                out += list(g["spec"]) + ["save", path]
+                spec = [os.path.join(self.wd, t[len("%file:"):]) if t.startswith("%file:") else t for t in g["spec"]]
+                out += spec + ["save", path]
                 files.setdefault(g["name"], []).append(path)
             else:
                 out.append(tok)
@@ -155,6 +156,10 @@ def main(argv=None):
     table = {g["name"]: g["items"] for g in groups}
     if not {"formula", "transformations", "output_options", "graphs"} <= set(table):
         raise tlc.MachineryError("LibCall table export incomplete: %r" % sorted(table))
+    with open(os.path.join(wd, "null.dimacs"), "w") as f:
+        f.write("c the null graph\np edge 0 0\n")
+    with open(os.path.join(wd, "p3.dimacs"), "w") as f:
+        f.write("p edge 3 2\ne 1 2\ne 2 3\n")
     R = Runner(ck, wd, table["graphs"])
     rng = ck.rng
     cmds = sorted(table["formula"], key=lambda c: " ".join(c["argv"]))
